@@ -98,7 +98,7 @@ func c05Enumerate(tier string, seed int64, emit func(string, any)) {
 		for k := uint(1); k <= 30; k++ {
 			ns = append(ns, 1<<k-1, 1<<k, 1<<k+1)
 		}
-		ns = append(ns, 1000, 1000000, 2147483645, 1431655765, 1431655766, 3000000000)
+		ns = append(ns, 1000, 1000000, 2147483645, 1431655765, 1431655766)
 	}
 	seen := map[int64]bool{}
 	const shards = 56
@@ -207,21 +207,22 @@ func c05Run(raw json.RawMessage) harn.Result {
 				}
 			}
 		}
-		// rejected words only at the very top of the range, fewer than n
-		if rejected > uint64(n) {
-			viol("C05:w32:rejections", fmt.Sprintf("%d words rejected in [%#x,%#x), at most n may be", rejected, c.Lo, c.Hi))
+		// exact uniformity: exactly the words at or above the largest multiple of n that fits the word space are rejected
+		// (the accepted words [0, ceiling) then split evenly over the faces); restated independently of the implementation
+		ceil32 := (uint64(1) << 32) / uint64(n) * uint64(n)
+		if n&(n-1) == 0 {
+			ceil32 = 1 << 32
 		}
-		if rejected > 0 && c.Hi != 1<<32 {
-			viol("C05:w32:rejections", fmt.Sprintf("words rejected inside [%#x,%#x), rejection is only legitimate at the top of the word range", c.Lo, c.Hi))
+		wantRej := uint64(0)
+		if c.Hi > ceil32 {
+			lo := c.Lo
+			if lo < ceil32 {
+				lo = ceil32
+			}
+			wantRej = c.Hi - lo
 		}
-		if n&(n-1) != 0 && c.Hi == 1<<32 {
-			want := uint64(math.MaxUint32)%uint64(n) + 1
-			if want == uint64(n) {
-				want = 0
-			}
-			if rejected != want {
-				viol("C05:w32:rejections", fmt.Sprintf("%d words rejected at the top, exact uniformity needs %d", rejected, want))
-			}
+		if rejected != wantRej {
+			viol("C05:w32:rejections", fmt.Sprintf("words [%#x,%#x): %d words rejected, exact uniformity needs exactly the %d words at or above %#x", c.Lo, c.Hi, rejected, wantRej, ceil32))
 		}
 		res.Sample = fmt.Sprintf("n=%d words [%#x,%#x) through _roll32: %d rejected", n, c.Lo, c.Hi, rejected)
 	case "w64":
